@@ -246,7 +246,8 @@ fn job<F: Fn() -> Box<dyn Machine> + Sync + Send + 'static>(f: F, mode: Mode, bi
 
 fn idx_jobs<C: IdxSubject>(out: &mut Vec<Job>, oracle: IdxOracle, depth: usize, devs: &[(usize, usize)], scripts: &[u8]) {
     let mut cfg = BfsCfg::new(depth);
-    cfg.wall_cap_s = 420.0;
+    cfg.wall_cap_s = 900.0;
+    cfg.max_states = 12_000_000;
     out.push(job(move || Box::new(IdxMachine::<C>::new(oracle, 0)), Mode::Bfs(cfg), true));
     for &script in scripts {
         for &(n, k) in devs {
@@ -260,7 +261,7 @@ pub fn jobs(prop: &str, tier: &str) -> Vec<Job> {
     let mut out = Vec::new();
     match prop {
         "C05" => {
-            let (d, devs): (usize, &[(usize, usize)]) = if thorough { (6, &[(64, 2), (256, 1)]) } else { (4, &[(24, 2), (64, 1)]) };
+            let (d, devs): (usize, &[(usize, usize)]) = if thorough { (5, &[(64, 2), (256, 1)]) } else { (4, &[(24, 2), (64, 1)]) };
             let scripts: &[u8] = &[0, 1, 2, 3];
             idx_jobs::<Stride>(&mut out, IdxOracle::Faithful, d + 1, devs, scripts);
             idx_jobs::<IndexList<Vec<u32>, Vec<u64>>>(&mut out, IdxOracle::Faithful, d, devs, scripts);
@@ -268,7 +269,7 @@ pub fn jobs(prop: &str, tier: &str) -> Vec<Job> {
             idx_jobs::<Vec<usize>>(&mut out, IdxOracle::Faithful, d.min(4), &devs[..1], &[0]);
         }
         "C19" => {
-            let (d, devs): (usize, &[(usize, usize)]) = if thorough { (6, &[(64, 2), (512, 1)]) } else { (4, &[(24, 2), (64, 1)]) };
+            let (d, devs): (usize, &[(usize, usize)]) = if thorough { (5, &[(64, 2), (512, 1)]) } else { (4, &[(24, 2), (64, 1)]) };
             let scripts: &[u8] = &[0, 1, 2, 3];
             idx_jobs::<IndexList<Vec<u32>, Vec<u64>>>(&mut out, IdxOracle::Space, d, devs, scripts);
             idx_jobs::<IndexOptimized>(&mut out, IdxOracle::Space, d, devs, scripts);
@@ -501,7 +502,7 @@ pub fn jobs(prop: &str, tier: &str) -> Vec<Job> {
             c.n_values = 4;
             c.n_forms = 2;
             // the long runs cross the heavy-hitter summary's compaction in dictionary-coded regions (> 1024 pushes)
-            let devs: &[(usize, usize, u8)] = if thorough { &[(48, 2, 0), (2200, 0, 0)] } else { &[(24, 1, 0), (1100, 0, 0)] };
+            let devs: &[(usize, usize, u8)] = if thorough { &[(48, 2, 0), (3000, 0, 0)] } else { &[(24, 1, 0), (1500, 0, 0)] };
             life(&mut out, c, if thorough { 5 } else { 4 }, devs, &|i| i.has_heap, &|_, _| {});
             stacks(&mut out, StackOracle::Sequence, if thorough { 5 } else { 3 }, &[], 3);
         }
